@@ -789,10 +789,24 @@ class GradEstimate(_NoReplay):
 class Kont:
     """abstract continuation of a site: kdual(Dual(x, dx)) = Dual(KP(x), KT(x, dx)), kpure(x) = [KP(x)]"""
 
-    def __init__(self, sort, lanes=None):
+    def __init__(self, sort, lanes=None, vector=False):
         n = engine().fresh_name
         self.sort, self.lanes = sort, lanes
-        if lanes:  # continuation of a vector of `lanes` booleans: a function of its elements
+        self.vector = vector
+        if vector:
+            # the rest of the program returns a VECTOR in R^m (any m >= 1): KP / KT below denote ITS COMPONENT j for a
+            # generic j - a clause written with them and compared with component j of the result (`comp`) is the clause
+            # for every component
+            self.m, self.j = fresh("m", z3.IntSort()), fresh("j", z3.IntSort())
+            engine().assume(z3.And(self.m >= 1, self.j >= 0, self.j < self.m))
+            KPv = z3.Function(n("KPvec"), sort, z3.IntSort(), z3.RealSort())
+            KTv = z3.Function(n("KTvec"), sort, z3.IntSort(), z3.RealSort())
+            KTdv = z3.Function(n("KTdvec"), sort, sort, z3.IntSort(), z3.RealSort())
+            self._vec = (KPv, KTv, KTdv)
+            self.KP = lambda x: KPv(x, self.j)
+            self.KT = lambda x: KTv(x, self.j)
+            self.KTd = lambda x, dx: KTdv(x, dx, self.j)
+        elif lanes:  # continuation of a vector of `lanes` booleans: a function of its elements
             doms = [z3.BoolSort()] * lanes
             self._KP = z3.Function(n("KP"), *doms, z3.RealSort())
             self._KT = z3.Function(n("KT"), *doms, z3.RealSort())
@@ -803,7 +817,7 @@ class Kont:
             self.KP = z3.Function(n("KP"), sort, z3.RealSort())
             self.KT = z3.Function(n("KT"), sort, z3.RealSort())  # tangent of the continuation for a zero-tangent input
             self.KTd = z3.Function(n("KTd"), sort, sort, z3.RealSort())  # ... for input tangent dx
-        self.dcalls, self.pcalls = [], []
+        self.dcalls, self.pcalls, self.drets = [], [], []
 
     def _key(self, x):
         if self.lanes:
@@ -813,14 +827,37 @@ class Kont:
         return _lift(x)
 
     def kdual(self, *duals):
+        r = self._kdual(*duals)
+        self.drets.append(r)
+        return r
+
+    def returned_by_kdual(self, out):
+        """`out` is (component-wise) the Dual the continuation handed back - nothing added, dropped or summed"""
+        return isinstance(out, Dual) and len(self.drets) >= 1 and any(out.primal is r.primal and out.tangent is r.tangent for r in self.drets)
+
+    def _kdual(self, *duals):
         self.dcalls.append(duals)
         if len(duals) != 1 or not isinstance(duals[0], Dual):
             raise documented(TypeError("continuation expects exactly one Dual per out variable, got %r" % (duals,)))
         d = duals[0]
         x = self._key(d.primal)
+        if self.vector:
+            KPv, KTv, KTdv = self._vec
+            if AD.is_zero_tangent(d.tangent):
+                return Dual(Tensor((self.m,), lambda idx: KPv(x, idx[0])), Tensor((self.m,), lambda idx: KTv(x, idx[0])))
+            dx = self._key(d.tangent)
+            return Dual(Tensor((self.m,), lambda idx: KPv(x, idx[0])), Tensor((self.m,), lambda idx: KTdv(x, dx, idx[0])))
         if AD.is_zero_tangent(d.tangent):
             return Dual(Sym(self.KP(x)), Sym(self.KT(x)))
         return Dual(Sym(self.KP(x)), Sym(self.KTd(x, self._key(d.tangent))))
+
+    def comp(self, v):
+        """component j of a vector-valued result (the value itself for a scalar continuation)"""
+        if not self.vector:
+            return v
+        if not (isinstance(v, Tensor) and v.ndim == 1 and dim_eq(v.shape[0], self.m)):
+            return None  # not a vector of the integrand's length: `same(None, ...)` is false
+        return Sym(v.fn((self.j,)))
 
     def kpure(self, *vals):
         """the PURE continuation binds the remaining equations as they are; a later stochastic site is then evaluated by
@@ -830,6 +867,12 @@ class Kont:
         different function KPfrozen, not the fresh evaluation KP that the dual continuation's primal gives"""
         Assumed.note("pure continuation = remaining equations bound as staged: downstream sites replay the draw baked at staging when unseeded (KPfrozen), only under seed is it a fresh evaluation")
         self.pcalls.append(vals)
+        if self.vector:
+            if not hasattr(self, "_KPfrozen_v"):
+                self._KPfrozen_v = z3.Function(engine().fresh_name("KPfrozenvec"), self.sort, z3.IntSort(), z3.RealSort())
+                self.KPfrozen = lambda x: self._KPfrozen_v(x, self.j)
+            x = self._key(vals[0])
+            return [Tensor((self.m,), lambda idx: self._KPfrozen_v(x, idx[0]))]
         if not hasattr(self, "KPfrozen"):
             n = engine().fresh_name
             if self.lanes:
@@ -853,11 +896,11 @@ class _Prim(_NoReplay):
 class FlipEnumC(_Prim):
     """exact: (p f_T + (1-p) f_F ,  p'(f_T - f_F) + p f'_T + (1-p) f'_F), zero variance (no sampling)"""
 
-    cases = ["scalar"]
+    cases = ["scalar", "scalar:vector_valued_integrand"]
 
     def call(self, case):
         reset()
-        self.k = Kont(z3.BoolSort())
+        self.k = Kont(z3.BoolSort(), vector="vector_valued_integrand" in case)
         return self.real(adev.FlipEnum().prim_jvp_estimate, self.p_dual(), (self.k.kpure, self.k.kdual))
 
     def ensures(self, case, path):
@@ -867,8 +910,8 @@ class FlipEnumC(_Prim):
         k, p, dp = self.k, self.p.e, self.dp.e
         T, F = z3.BoolVal(True), z3.BoolVal(False)
         out = path.value
-        yield "value_is_exact_expectation", same(out.primal, Sym(p * k.KP(T) + (1 - p) * k.KP(F)))
-        yield "tangent_is_exact_derivative", same(out.tangent, Sym(dp * (k.KP(T) - k.KP(F)) + p * k.KT(T) + (1 - p) * k.KT(F)))
+        yield "value_is_exact_expectation", same(k.comp(out.primal), Sym(p * k.KP(T) + (1 - p) * k.KP(F)))
+        yield "tangent_is_exact_derivative", same(k.comp(out.tangent), Sym(dp * (k.KP(T) - k.KP(F)) + p * k.KT(T) + (1 - p) * k.KT(F)))
         yield "no_sampling(zero_variance)", not FLIPS.calls
 
 
@@ -922,11 +965,11 @@ class FlipMVDC(_Prim):
     """b ~ flip(p); estimate (f_b, f'_b + sign(b) (f_{not b} - f_b) p') whose measure-valued term equals f_T - f_F for
     BOTH outcomes; averaging over b gives the exact derivative (lemma)"""
 
-    cases = ["scalar"]
+    cases = ["scalar", "scalar:vector_valued_integrand"]
 
     def call(self, case):
         reset()
-        self.k = Kont(z3.BoolSort())
+        self.k = Kont(z3.BoolSort(), vector="vector_valued_integrand" in case)
         return self.real(adev.FlipMVD().prim_jvp_estimate, self.p_dual(), (self.k.kpure, self.k.kdual))
 
     def ensures(self, case, path):
@@ -940,8 +983,8 @@ class FlipMVDC(_Prim):
         b = BDraw(FLIPS.calls[0][1], self.p.e)
         T, F = z3.BoolVal(True), z3.BoolVal(False)
         out = path.value
-        yield "value_is_f(b)", same(out.primal, Sym(k.KP(b)))
-        yield "tangent_is_f'(b)_plus_(f_T-f_F)p'_for_either_outcome", same(out.tangent, Sym(k.KT(b) + (k.KP(T) - k.KP(F)) * dp))
+        yield "value_is_f(b)", same(k.comp(out.primal), Sym(k.KP(b)))
+        yield "tangent_is_f'(b)_plus_(f_T-f_F)p'_for_either_outcome", same(k.comp(out.tangent), Sym(k.KT(b) + (k.KP(T) - k.KP(F)) * dp))
         # exact unbiasedness: sum_b P(b) tangent(b) = d/dtheta [p f_T + (1-p) f_F]
         p = self.p.e
         tan = lambda bb: k.KT(bb) + (k.KP(T) - k.KP(F)) * dp
@@ -1096,7 +1139,7 @@ class NormalReparamC(_Prim):
             eps = dists.DrawRI(NRM.id, sc["nonce"], i, z3.RealVal(0), z3.RealVal(1))
             yield "primal_is_mu_plus_sigma_eps_with_independent_noise_per_coordinate", isinstance(d.primal, Tensor) and d.primal.fn((i,)) == at(self.mu) + at(self.sg) * eps
             yield "tangent_is_pathwise_derivative_for_the_noise_drawn", isinstance(d.tangent, Tensor) and d.tangent.fn((i,)) == at(self.dmu) + at(self.dsg) * eps
-        yield "returns_the_continuations_dual", isinstance(path.value, Dual)
+        yield "returns_the_continuations_dual_unchanged", k.returned_by_kdual(path.value)
 
 
 @contract("genjax.adev:MultivariateNormalDiagREPARAM.prim_jvp_estimate", ["C11", "C17"])
@@ -1140,6 +1183,7 @@ class MvnDiagReparamC(_Prim):
         eps = dists.DrawRI(NRM.id, sc["nonce"], i, z3.RealVal(0), z3.RealVal(1))
         yield "primal_is_loc_plus_scale_eps", d.primal.fn((i,)) == self.mu.fn((i,)) + self.sg.fn((i,)) * eps
         yield "tangent_is_pathwise_derivative", d.tangent.fn((i,)) == self.dmu.fn((i,)) + self.dsg.fn((i,)) * eps
+        yield "returns_the_continuations_dual_unchanged", self.k.returned_by_kdual(path.value)
 
 
 @contract("genjax.adev:UniformREPARAM.prim_jvp_estimate", ["C11"])
@@ -1167,6 +1211,7 @@ class UniformReparamC(_Prim):
         eps = dists.DrawR(UNI.id, sc["nonce"], z3.RealVal(0), z3.RealVal(1))
         yield "primal_is_low_plus_(high-low)_eps", same(d.primal, Sym(self.lo.e + (self.hi.e - self.lo.e) * eps))
         yield "tangent_is_pathwise_derivative", same(d.tangent, Sym(self.dlo.e + (self.dhi.e - self.dlo.e) * eps))
+        yield "returns_the_continuations_dual_unchanged", self.k.returned_by_kdual(path.value)
 
 
 @contract("genjax.adev:MultivariateNormalREPARAM.prim_jvp_estimate", ["C11", "C17"])
@@ -1201,6 +1246,7 @@ class MvnReparamC(_Prim):
         pe, te = enc(self.cov), enc(self.dcov)
         yield "primal_is_loc_plus_chol(cov)_eps", d.primal.fn((i,)) == self.loc.fn((i,)) + mk_sum(self.n, lambda kk: CholV(pe, i, kk) * eps(kk))
         yield "tangent_is_pathwise_derivative", d.tangent.fn((i,)) == self.dloc.fn((i,)) + mk_sum(self.n, lambda kk: DCholF(pe, te, i, kk) * eps(kk))
+        yield "returns_the_continuations_dual_unchanged", self.k.returned_by_kdual(path.value)
 
 
 @contract("genjax.adev:FlipEnumParallel.prim_jvp_estimate", ["C11"])
